@@ -5,6 +5,7 @@ f9_0:
   ret
   call f10_0
   lea d_f9_0(%rip),%rax
+  mov wvsv1(%rip),%rax
   ret
 .section .data.d_f9_0,"aw",@progbits
 .globl d_f9_0
